@@ -41,6 +41,46 @@ Proof.
   - unfold c01_outs. apply in_map_iff. exists q. split; [reflexivity | exact Hq].
 Qed.
 
+(* ---- programs with circuit-controlled entities (C06): entity number [r_ent] of the blueprint
+   must be enabled exactly when the assigned expression is positive *)
+Record ent_req := { r_ent : nat; r_expr : expr }.
+
+Definition enable_term {V} (A : alg V) (ds : list decl) (e : expr) : V :=
+  a_cmp A CGt (den A (den_prog A ds) e) (a_const A 0).
+
+Definition prog_pcs (ds : list decl) (rs : list ent_req) : list (nat * term) :=
+  map (fun r => (r_ent r, enable_term talg ds (r_expr r))) rs.
+
+Definition check_prog (b : bp) (fuel : nat) (ds : list decl) (qs : list out_req) (rs : list ent_req)
+  : option nat :=
+  check_settled2 b fuel (c01_outs ds qs) (prog_pcs ds rs).
+
+Theorem check_prog_sound b fuel ds qs rs k :
+  check_prog b fuel ds qs rs = Some k ->
+  forall (env : var -> Z) (t : nat), (k < t)%nat ->
+  (forall q, In q qs ->
+     observe (zalg env) b (run (zalg env) b t) (q_obs ds q) = nth (q_decl q) (den_prog (zalg env) ds) 0) /\
+  (forall r, In r rs ->
+     pcond (zalg env) b (run (zalg env) b t) (r_ent r)
+     = Some (b2z (den (zalg env) (den_prog (zalg env) ds) (r_expr r) >? 0))).
+Proof.
+  intros Hc env t Ht. unfold check_prog in Hc.
+  destruct (check_settled2_sound env b fuel _ _ k Hc t Ht) as [H1 H2]. split.
+  - intros q Hq.
+    rewrite (H1 (q_obs ds q) (nth (q_decl q) (den_prog talg ds) (TC 0))).
+    + rewrite <- (den_prog_hom talg (zalg env) (eval env) (talg_hom env)).
+      symmetry. apply (map_nth (eval env) (den_prog talg ds) (TC 0)).
+    + unfold c01_outs. apply in_map_iff. exists q. split; [reflexivity | exact Hq].
+  - intros r Hr.
+    rewrite (H2 (r_ent r) (enable_term talg ds (r_expr r))).
+    + unfold enable_term. f_equal.
+      rewrite (h_cmp talg (zalg env) (eval env) (talg_hom env)), (h_const talg (zalg env) (eval env) (talg_hom env)),
+              (den_hom talg (zalg env) (eval env) (talg_hom env)),
+              (den_prog_hom talg (zalg env) (eval env) (talg_hom env)).
+      reflexivity.
+    + unfold prog_pcs. apply in_map_iff. exists r. split; [reflexivity | exact Hr].
+Qed.
+
 (* ---- diagnostics for a failing case (not part of any proof) *)
 Definition debug_c01 (b : bp) (fuel : nat) (ds : list decl) (qs : list out_req)
   : option (nat * list (nat * term * term)) :=
@@ -57,5 +97,22 @@ Definition conc_c01 (b : bp) (ticks : nat) (ds : list decl) (qs : list out_req) 
   let st := run (zalg env) b ticks in
   let vals := den_prog (zalg env) ds in
   map (fun q => (observe (zalg env) b st (q_obs ds q), nth (q_decl q) vals 0)) qs.
+
+Definition debug_prog (b : bp) (fuel : nat) (ds : list decl) (qs : list out_req) (rs : list ent_req) :=
+  match find_fix b fuel (init b) O with
+  | None => None
+  | Some (k, st) =>
+      Some (k, map (fun q => (q_decl q, observe talg b st (q_obs ds q),
+                              nth (q_decl q) (den_prog talg ds) (TC 0))) qs,
+               map (fun r => (r_ent r, pcond talg b st (r_ent r), enable_term talg ds (r_expr r))) rs)
+  end.
+
+Definition conc_prog (b : bp) (ticks : nat) (ds : list decl) (qs : list out_req) (rs : list ent_req)
+  (env : var -> Z) : list (Z * Z) :=
+  let st := run (zalg env) b ticks in
+  let vals := den_prog (zalg env) ds in
+  map (fun q => (observe (zalg env) b st (q_obs ds q), nth (q_decl q) vals 0)) qs ++
+  map (fun r => (match pcond (zalg env) b st (r_ent r) with Some v => v | None => -1 end,
+                 enable_term (zalg env) ds (r_expr r))) rs.
 
 Definition env_of (l : list Z) : var -> Z := fun v => nth (Pos.to_nat v - 1) l 0.
